@@ -44,6 +44,8 @@ def gen_cases(ctx, scale):
     r = ctx.rng
     cases = []   # (tu, 'kind keycat dist logStart sm | ops')
     def add(kind, keycat, dist, ls, sm, ops):
+        if kind in ('O1', 'L1', 'N1'):
+            ls = max(ls, 1)      # CalcCapacity(1 bucket of capacity 1) = 0 is not a usable start size
         cases.append((TU_OF[kind], '%s %s %d %d %s | %s' % (kind, keycat, dist, ls, sm, ' '.join(ops))))
     allk = [k for ks in KINDS.values() for k in ks]
     main = ['L4', 'O3', 'O8', 'L2', 'O1', 'L1', 'L3', 'O2']
@@ -87,18 +89,42 @@ def gen_cases(ctx, scale):
         ops = ['i%d' % k for k in range(n0)] + ['i%da0' % k for k in range(n0, n0 + 45)]
         ops += ['r%d' % r.below(n0 + 45) for _ in range(6)] + ['i%da0' % k for k in range(100, 108)] + ['i%d' % k for k in range(200, 206)]
         add(kind, keycat, dist, ls, 'S', ops)
-    # 4. growth succeeds but every migration fails at its first item, then refusal on top (3+ generations + overload)
-    for i in range(10 * scale):
-        kind = r.choice(['O3', 'O8', 'O1', 'L4', 'L2', 'O2'])
-        ls = r.choice([0, 1, 2])
-        dist = r.choice([0, 4, 4, 5])
+    # 4. growth succeeds but (almost) every migration fails at once, sometimes refusal on top: 3+ generations + overload
+    for i in range(36 * scale):
+        kind = r.choice(['O3', 'O8', 'O1', 'L4', 'L2', 'O2', 'L1', 'L3'])
+        ls = r.choice([0, 0, 1, 2])
+        dist = r.choice([0, 4, 4, 5, 2])
+        prefuse = r.choice([0, 0, 0, 1, 2])
         ops = []
-        for k in range(r.range(30, 70)):
+        for k in range(r.range(40, 90) * (2 if kind == 'O8' else 1)):
             t = r.below(10)
-            ops.append('i%d%s' % (k, 'f1' if t < 6 else 'a0' if t < 8 else 'f%d' % r.range(1, 5)))
+            ops.append('i%d%s' % (k, 'a0' if t < prefuse else 'f1' if t < 8 else 'f%d' % r.range(1, 5)))
+            if r.chance(1, 8): ops.append('r%d' % r.below(k + 1))
+            if r.chance(1, 20): ops.append('q%d' % r.below(k + 1))
+        ops += ['t'] + ['i%d' % k for k in range(300, 300 + r.range(1, 40))]
+        add(kind, r.choice(['T', 'T', 'T', 'S']), dist, ls, 'S', ops)
+    # 5. fast-hash keys in LimP4 (one allocation per bucket array): migrations interrupted by refused bucket-array allocations
+    for i in range(24 * scale):
+        kind = r.choice(['L4', 'L2', 'L3', 'L4', 'L1'])
+        ls = r.choice([0, 1, 2])
+        dist = r.choice([0, 4, 4, 5, 2])
+        ops = []
+        for k in range(r.range(25, 75)):
+            ops.append('i%da%d' % (k, r.choice([1, 2, 2, 2, 3, 3, 4, 0])))
             if r.chance(1, 8): ops.append('r%d' % r.below(k + 1))
         ops += ['t'] + ['i%d' % k for k in range(300, 300 + r.range(1, 40))]
-        add(kind, r.choice(['T', 'T', 'S']), dist, ls, 'S', ops)
+        kc = r.choice(['F', 'F', 'T'])
+        add(kind, kc, dist, ls, 'S' if kc == 'T' else r.choice(['S', 'S', 'M']), ops)
+    # 6. aimed at MOMO_CHECK(newCapacity > mCount) in pvAddGrow after overloading fallback insertions
+    for kind in ('N1', 'L1'):
+        add(kind, 'F', 0, 1, 'S', ['i0', 'i1a0', 'i2', 'i3', 'r0', 'i4', 'i5', 't'])
+    ops = ['i0']; k = 1; bc = 1
+    for phase in range(4):
+        ops += ['i%da0f1' % (k + j) for j in range(3 * bc + 2)]; k += 3 * bc + 2
+        ops.append('i%df1' % k); k += 1; bc *= 2
+    ops += ['i%da0f1' % (k + j) for j in range(3 * bc + 2)]
+    ops += ['i%d' % (1000 + j) for j in range(4)] + ['t', 'r3', 'i2000', 'i2001']
+    add('O3', 'T', 0, 0, 'S', ops)
     return cases
 
 
@@ -116,7 +142,8 @@ def run_tu(ctx, harness, tu, lines, tag):
     return out, None
 
 
-STAT_KEYS = ['g2', 'g3', 'fb', 'refused', 'full', 'migfail', 'afail', 'extra']
+STAT_KEYS = ['g2', 'g3', 'fb', 'refused', 'full', 'migfail', 'afail', 'extra', 'chk']
+KNOWN_KEY = 'addgrow-check-after-overload'
 
 
 def oracle_and_annotate(ctx, harnesses, cases, tag, stats):
@@ -149,6 +176,8 @@ def oracle_and_annotate(ctx, harnesses, cases, tag, stats):
             if st.get('single') != '1': stats['cases_stuck_multi_generation'] = stats.get('cases_stuck_multi_generation', 0) + 1
             if mg >= 2 or int(st.get('fb', 0)) > 0:
                 ctx.nontrivial.add(c)
+            if int(st.get('chk', 0)) > 0:
+                stats.setdefault('_chk_cases', []).append((len(c), tu, c))
             if parts[2] != 'OK':
                 bad.append((tu, c, parts[2]))
     return bad, annotated
@@ -173,8 +202,11 @@ def replay(ctx, rp):
     tu = TU_OF[case.split()[0]]
     stats = {}
     bad, ann = oracle_and_annotate(ctx, harnesses, [(tu, case)], 'replay', stats)
+    chk = stats.pop('_chk_cases', [])
     print('case:', case); print('stats:', stats)
     rc = 0
+    if chk:
+        print('oracle: Insert failed MOMO_CHECK(newCapacity > mCount) after an overloading fallback insertion (key %s)' % KNOWN_KEY); rc = 1
     for b in bad:
         print('oracle:', b[2]); rc = 1
     if ann[tu] and ctx.extract():
@@ -222,6 +254,13 @@ def run(ctx):
     for (tu, c, why) in bad[:3]:
         ctx.violation('real HashSet/HashMap violates the property: ' + why,
                       {'case': c, 'why': why, 'cmd': 'echo "%s" | build/C11/h%d sched' % (c, tu)}, found_input=True)
+    chk_cases = sorted(stats.pop('_chk_cases', []))
+    if chk_cases:
+        n, tu, c = chk_cases[0]
+        ctx.violation('after an overloading fallback insertion HashSet::pvAddGrow fails MOMO_CHECK(newCapacity > mCount): Insert throws/asserts although '
+                      'the arguments are valid, the table can no longer grow and interrupted migrations are never completed (%d histories)' % len(chk_cases),
+                      {'case': c, 'why': 'Insert result K = std::invalid_argument from MOMO_CHECK(newCapacity > mCount)',
+                       'cmd': 'echo "%s" | C11_VERBOSE=1 build/C11/h%d' % (c, tu)}, found_input=True, key=KNOWN_KEY)
     have_model = ctx.stages.get('prove', {}).get('ok') and ctx.extract()
     if have_model:
         for tu in (0, 1, 2):
